@@ -612,6 +612,36 @@ def v13(ctx, rid):
         raise core.AnchorLost('deletion calls carrying a Meta in src/storage/core.rs: %d' % n)
 
 
+def v15(ctx, rid):
+    """the size fields of a record header describe the bytes written next to it: where a header or record is built, a
+    serialized_size() that feeds it is asked of the Meta the record carries - not of a throw-away `Meta::default()` / `Meta::new()`
+    (a deletion record written with metadata would carry the size of an empty map: its metadata cannot be read back, and the
+    start-up scan lands inside it and quarantines the undamaged blob)"""
+    prog = ctx.prog
+    n = 0
+    bad = None
+    for f in prog.fns.values():
+        if not f.file.startswith('src/record/') or '::tests::' in f.id or f.file.endswith('tests.rs'):
+            continue
+        ret = f.locals[0]['s']
+        if 'record::record::Header' not in ret and 'record::record::Record' not in ret:
+            continue
+        for c in f.calls:
+            if c.bb not in f.reachable() or c.name != 'serialized_size' or not c.args or not any('record::record::Meta' in t for t in prog.resolve(c)):
+                continue
+            n += 1
+            ogs = core.origins(f, c.args[0])
+            fresh = [o for o in ogs if o.kind == 'call' and o.data.name in ('default', 'new') and ('Meta' in o.data.full)]
+            if ogs and len(fresh) == len(ogs):
+                bad = c
+    if n < 1:
+        raise core.AnchorLost('Meta::serialized_size in record constructors: %d' % n)
+    if bad:
+        ctx.bad(rid, 'meta-size-of-the-carried-meta', bad.where(), 'a record / header is built with the serialized size of a freshly constructed (empty) Meta instead of the Meta it is written with: meta_size disagrees with the bytes on disk whenever the caller supplies metadata')
+    else:
+        ctx.ok(rid, 'meta-size-of-the-carried-meta', '', '%d size computations, each asked of the carried Meta' % n, nontrivial=False, queries=n)
+
+
 RULES = [
     Rule('C05.V1', 'no record data leaves a reading function without an ok data-checksum audit', v1, 4),
     Rule('C05.V2', 'a header deserialised from file bytes is accepted only after magic + header-CRC validation', v2, 3),
@@ -626,5 +656,6 @@ RULES = [
     Rule('C05.V11', 'record size fields are computed by the serializer, not by hand', v11, 2),
     Rule('C05.V12', 'a reused buffer is resized to the length to be read on every path before an exact positional read fills it', v12, 1),
     Rule('C05.V13', 'every deletion record of a multi-blob delete carries a copy of the caller\'s metadata map', v13, 2),
+    Rule('C05.V15', 'the meta_size of a record is the serialized size of the Meta it carries', v15, 1),
     Rule('C05.V5', 'the header CRC written at reservation time is computed after the offset was patched', v5, 1),
 ]
